@@ -6,6 +6,7 @@ stages: translate summator.pyx -> Gallina (tie 1) ; theorems props/C16.v (refine
         IncomprRandMeth.__call__ and SRF(generator='VectorField') vs the hand model of the wrapper ;
         probes on the implementation: central-difference divergence with a rigorous error budget, ensemble mean
         and component variances over seeds (6 standard errors), structured grid = pointwise evaluation."""
+import copy
 import json
 import os
 import math
@@ -77,6 +78,10 @@ def rand_cfg(rng, name, dim, mode_choices=(1, 2, 7, 64, 200, 1000)):
     if rng.random() < 0.5:
         # rotation angles on an isotropic model: the model (and the field) must not depend on them
         ang = rng.uniform(0.2, 3.0, size=1 if dim == 2 else 3) * rng.choice([-1.0, 1.0], size=1 if dim == 2 else 3)
+        if dim == 3:
+            ang = ang * (rng.random(3) < 0.6)              # every zero / non-zero pattern of the three angles
+            if not ang.any():
+                ang[int(rng.integers(3))] = 0.9
         cfg["opt"] = dict(cfg["opt"], angles=[float(a) for a in ang])
     return cfg
 
@@ -613,14 +618,15 @@ def ensemble_case(ctx, cfg, M, seeds, npts, x, history=False):
     out = {v: (np.empty((M, cfg["dim"])), np.empty((M, cfg["dim"]))) for v in ("add_nugget=False", "add_nugget=True")}
     differ = None
     for s in range(M):
-        if history:
+        if history is True:
             g.mean_u = -2.7 * cfg["mean_u"]
         g.reset_seed(int(seeds[s]))
-        if history:
+        if history is True:
             g.mean_u = cfg["mean_u"]
         us = {}
+        ge = copy.deepcopy(g) if history == "deepcopy" else g
         for v, flag in (("add_nugget=False", False), ("add_nugget=True", True)):
-            u = np.asarray(g(x, add_nugget=flag))
+            u = np.asarray(ge(x, add_nugget=flag))
             us[v] = u
             out[v][0][s] = u.mean(1)
             out[v][1][s] = ((u - mu[:, None]) ** 2).mean(1)
@@ -631,7 +637,8 @@ def ensemble_case(ctx, cfg, M, seeds, npts, x, history=False):
 
 def run_ensemble(ctx, cfg, M, seeds, x, history=False):
     case = dict(cfg, M=M, seeds_first=[int(s) for s in seeds[:5]], seed_gen="C.Rng(VERIF_SEED,'C16')", x=hexarr(x),
-                history=("mean_u = -2.7 * mean_u; reset_seed(s); mean_u = mean_u" if history else "reset_seed(s)"))
+                history=("mean_u = -2.7 * mean_u; reset_seed(s); mean_u = mean_u" if history is True else
+                         "reset_seed(s); evaluate copy.deepcopy(generator)" if history == "deepcopy" else "reset_seed(s)"))
     dim = cfg["dim"]
     try:
         with warnings.catch_warnings():
@@ -679,7 +686,7 @@ def run_ensemble(ctx, cfg, M, seeds, x, history=False):
 def probe_ensemble(ctx, rng):
     thorough = ctx.tier == "thorough"
     if thorough:
-        plan = [(n, d, 150 if n != "TPLStable" else 100, (k % 2 == 1)) for k, (n, d) in
+        plan = [(n, d, 150 if n != "TPLStable" else 100, (False, True, "deepcopy")[k % 3]) for k, (n, d) in
                 enumerate((n, d) for n in CLASSES for d in (2, 3))]
         plan[0] = ("Gaussian", 2, 3000, False)
         plan[2] = ("Exponential", 2, 3000, True)
@@ -690,7 +697,7 @@ def probe_ensemble(ctx, rng):
         others = [c for c in CLASSES if c not in ("Gaussian", "Exponential") + TPL]
         pick = others[int(rng.integers(len(others)))]
         tpl = TPL[int(rng.integers(len(TPL)))]
-        plan = [("Gaussian", 2, 800, False), ("Exponential", 2, 800, True), ("Gaussian", 3, 100, False),
+        plan = [("Gaussian", 2, 800, False), ("Exponential", 2, 800, True), ("Gaussian", 3, 100, "deepcopy"),
                 (pick, int(rng.choice([2, 3])), 120, bool(rng.integers(2))),
                 (tpl, int(rng.choice([2, 3])), 50 if tpl == "TPLStable" else 120, bool(rng.integers(2)))]
     worst = 0.0
@@ -703,7 +710,7 @@ def probe_ensemble(ctx, rng):
     ctx.notes.append("ensemble probe: %d configurations (direct generator calls with add_nugget False and True; %d with a mean_u "
                      "re-assignment history); the 6-standard-error window of the variance fractions was at most %.0f%% of the "
                      "expected value (a wrong projector such as 1/2:1/2 or 3/8:3/8 in 2-D is off by >= 33%%)"
-                     % (len(plan), sum(1 for p_ in plan if p_[3]), 100 * worst))
+                     % (len(plan), sum(1 for p_ in plan if p_[3] is True), 100 * worst))
 
 
 STRUCT_SHAPES = {2: [(2, 1), (1, 2), (1, 1), (3, 1), (2, 2), (3, 2)],
@@ -920,7 +927,12 @@ def entry_points(dim, rng):
     perms = [list(range(dim)), list(range(dim))[::-1]] + ([[0, 2]] if dim == 2 else [[1, 2, 0]])
     out = [("SRF.unstructured", lambda srf: (lambda pos: srf.unstructured(tuple(pos)))),
            ("SRF.__call__ (list of arrays)", lambda srf: (lambda pos: srf([np.array(p) for p in pos]))),
-           ("SRF.__call__ (2-d array)", lambda srf: (lambda pos: srf(np.array(pos))))]
+           ("SRF.__call__ (2-d array)", lambda srf: (lambda pos: srf(np.array(pos)))),
+           ("SRF.__call__ (Fortran-ordered array)", lambda srf: (lambda pos: srf(np.asfortranarray(pos)))),
+           ("SRF.__call__ (strided view)", lambda srf: (lambda pos: srf(np.repeat(np.asarray(pos), 2, axis=1)[:, ::2]))),
+           ("SRF.__call__ (transposed (n, dim) array)", lambda srf: (lambda pos: srf(np.ascontiguousarray(np.asarray(pos).T).T))),
+           ("generator call (Fortran-ordered array)", lambda srf: (lambda pos: srf.generator(np.asfortranarray(pos), add_nugget=False))),
+           ("generator call (strided view)", lambda srf: (lambda pos: srf.generator(np.repeat(np.asarray(pos), 3, axis=1)[:, 1::3], add_nugget=False)))]
     for cols in perms:
         for as_string in (True, False):
             direction = "".join(names[c] for c in cols) if as_string else list(cols)
@@ -1170,6 +1182,156 @@ def probe_mean_trend(ctx, rng):
                     break
 
 
+def angle_patterns(dim, rng):
+    """every zero / non-zero pattern of the rotation angles and every way of writing them"""
+    a, b, c = (float(v) for v in rng.uniform(0.3, 2.8, size=3) * rng.choice([-1.0, 1.0], size=3))
+    if dim == 2:
+        return [0.0, a, [a], np.float64(b), np.array([c]), 1e-9, np.pi, 2 * np.pi, -0.0]
+    pats = [[a * i, b * j, c * k] for i in (0, 1) for j in (0, 1) for k in (0, 1)]          # 2^3 patterns
+    return pats + [a, [a], [a, b], [0.0, b], np.float64(c), np.array([a, 0.0, c]), (0.0, 0.0, 1e-9), [np.pi, 0.0, 0.0], [1e-9, b, 0.0]]
+
+
+def corr_angle_patterns(ctx, rng):
+    """an isotropic model is the same model for EVERY value and spelling of its rotation angles: SRF(generator='VectorField')
+    must return bitwise the field of the model without angles (unstructured, dim points and structured)"""
+    for dim in (2, 3):
+        for name in ["Gaussian", CLASSES[int(rng.integers(len(CLASSES)))]]:
+            cfg = rand_cfg(rng, name, dim, mode_choices=(2, 7, 33))
+            opt0 = {k: v for k, v in cfg["opt"].items() if k != "angles"}
+            pos = np.ascontiguousarray(rng.uniform(-5, 5, size=(dim, dim if name == "Gaussian" else 5)) * cfg["len_scale"])
+            axes = [np.sort(rng.uniform(-5, 5, size=k) * cfg["len_scale"]) for k in ([2, 3, 1][:dim])]
+            try:
+                with warnings.catch_warnings():
+                    warnings.simplefilter("ignore")
+                    plain = np.asarray(make_srf(dict(cfg, opt=opt0))(tuple(pos), mesh_type="unstructured"))
+                    plain_s = np.asarray(make_srf(dict(cfg, opt=opt0)).structured(axes))
+            except Exception as e:
+                ctx.violation("correspondence: angle patterns", "unexpected exception %r" % (e,), dict(cfg), key="frames:exception")
+                continue
+            for ang in angle_patterns(dim, rng):
+                desc = "%s(%s)" % (type(ang).__name__, np.asarray(ang, dtype=float).ravel().tolist())
+                case = dict(cfg, opt=opt0, angles=desc, pos=hexarr(pos))
+                try:
+                    with warnings.catch_warnings():
+                        warnings.simplefilter("ignore")
+                        srf = make_srf(dict(cfg, opt=dict(opt0, angles=ang)))
+                        f = np.asarray(srf(tuple(pos), mesh_type="unstructured"))
+                        fs = np.asarray(make_srf(dict(cfg, opt=dict(opt0, angles=ang))).structured(axes))
+                except Exception as e:
+                    ctx.violation("correspondence: angle patterns", "unexpected exception %r for angles %s" % (e, desc), case, key="frames:exception")
+                    continue
+                pattern = "".join("0" if v == 0 else "x" for v in np.atleast_1d(np.asarray(srf.model.angles, dtype=float)))
+                ctx.count(("angles", name, dim, desc), hist=dict(stage="angle-patterns", dim=dim, pattern=pattern, spelling=type(ang).__name__))
+                if not (C.bit_equal(f, plain) and C.bit_equal(fs, plain_s)):
+                    ctx.violation("correspondence: isotropic model with angles %s (pattern %s) vs the same model without angles" % (desc, pattern),
+                                  "SRF(generator='VectorField') of an isotropic model changes with its rotation angles: max |diff| %.3g"
+                                  % float(max(np.max(np.abs(f - plain)), np.max(np.abs(fs - plain_s)))),
+                                  dict(case, got=hexarr(f), plain=hexarr(plain)), key="frames:isotropic-angles:%s" % pattern, no_input=True)
+                    x = np.ascontiguousarray(rng.uniform(-10, 10, size=(dim, 6)) * cfg["len_scale"])
+                    run_divergence(ctx, dict(cfg, opt=dict(opt0, angles=np.asarray(ang, dtype=float).ravel().tolist()
+                                                           if np.ndim(ang) else float(ang)), mode_no=max(cfg["mode_no"], 7)), x)
+
+
+def probe_copies(ctx, rng, drv):
+    """copy.copy / copy.deepcopy / pickle round trip (where pickling works on this tree) of the generator and of the SRF, keyword
+    order of the SRF generator arguments, and interference by other objects created / evaluated in between: the object must give
+    bitwise the field of the original and the field of the extracted model with the ORIGINAL parameters; evaluating or changing a
+    deep copy must not change the original."""
+    import pickle
+    import gstools as gs
+    from gstools.field.generator import IncomprRandMeth
+    from gstools.field import summator as S
+    followups = []
+    ncfg = 6 if ctx.tier == "thorough" else 2
+    for dim in (2, 3):
+        for c in range(ncfg):
+            name = CLASSES[int(rng.integers(len(CLASSES)))] if c else "Gaussian"
+            cfg = rand_cfg(rng, name, dim, mode_choices=(2, 7, 33))
+            n = [dim, 5, 1][c % 3]
+            pos = np.ascontiguousarray(rng.uniform(-5, 5, size=(dim, n)) * cfg["len_scale"])
+            case = dict(cfg, pos=hexarr(pos))
+            try:
+                with warnings.catch_warnings():
+                    warnings.simplefilter("ignore")
+                    model = make_model(name, dim, cfg["var"], cfg["len_scale"], 0.0, cfg["opt"])
+                    kw = dict(mean_velocity=cfg["mean_u"], mode_no=cfg["mode_no"], seed=cfg["seed"])
+                    g = IncomprRandMeth(model, **kw)
+                    srf = gs.SRF(model, generator="VectorField", **kw)
+                    ref_g = np.asarray(g(pos, add_nugget=False)).copy()
+                    ref_s = np.asarray(srf(tuple(pos), mesh_type="unstructured")).copy()
+                    ks, z1, z2 = (np.ascontiguousarray(np.asarray(a, dtype=float)) for a in (g._cov_sample, g._z_1, g._z_2))
+                    var = float(model.var)
+                    sm = np.asarray(S.summate_incompr(ks, z1, z2, pos))
+                    tol = wrapper_tol(cfg["mean_u"], cfg["mean_u"] * math.sqrt(var / cfg["mode_no"]), sm, np.zeros_like(sm))
+                    mod = np.asarray(drv.call("generate", cfg["mean_u"], var, ("z", cfg["mode_no"]), ks, z1, z2, pos, np.zeros_like(pos))) if drv else ref_g
+            except Exception as e:
+                ctx.violation("probe: copies", "unexpected exception %r" % (e,), case, key="copies:exception")
+                continue
+            objs = []
+            for how, fn in (("copy.copy", copy.copy), ("copy.deepcopy", copy.deepcopy),
+                            ("pickle round trip", lambda o: pickle.loads(pickle.dumps(o)))):
+                for what, o in (("generator", g), ("SRF", srf)):
+                    try:
+                        with warnings.catch_warnings():
+                            warnings.simplefilter("ignore")
+                            objs.append((how, what, fn(o)))
+                    except Exception as e:
+                        if how == "pickle round trip":
+                            ctx.count(None, hist=dict(stage="copies", how=how, what=what, result="not picklable (%s)" % type(e).__name__))
+                            continue
+                        ctx.violation("probe: %s of the %s" % (how, what), "unexpected exception %r" % (e,), case, key="copies:exception")
+            # keyword order of the generator arguments forwarded by SRF
+            keys = list(kw)
+            for _ in range(2):
+                rng.shuffle(keys)
+                objs.append(("keyword order %s" % ",".join(keys), "SRF", gs.SRF(model, generator="VectorField", **{k: kw[k] for k in keys})))
+            # interference: other objects created / evaluated in between
+            with warnings.catch_warnings():
+                warnings.simplefilter("ignore")
+                other = gs.SRF(gs.Exponential(dim=dim, var=3.3, len_scale=0.7, angles=0.4), generator="VectorField", mean_velocity=-2.0, mode_no=5, seed=1)
+                other(tuple(pos * 0.5), mesh_type="unstructured")
+                IncomprRandMeth(gs.Gaussian(dim=dim), mean_velocity=9.0, mode_no=3, seed=2)(pos)
+                gs.SRF(gs.Gaussian(dim=dim, len_scale=3.0), seed=3, mode_no=4)(tuple(pos))
+            objs += [("after creating / evaluating other objects", "generator", g), ("after creating / evaluating other objects", "SRF", srf)]
+            for how, what, o in objs:
+                try:
+                    with warnings.catch_warnings():
+                        warnings.simplefilter("ignore")
+                        got = np.asarray(o(pos, add_nugget=False) if what == "generator" else o(tuple(pos), mesh_type="unstructured"))
+                        mean_u = (o if what == "generator" else o.generator).mean_u
+                except Exception as e:
+                    ctx.violation("probe: %s of the %s" % (how, what), "unexpected exception %r" % (e,), case, key="copies:exception")
+                    continue
+                ctx.count(("copies", how.split(" ")[0], what, dim, n), hist=dict(stage="copies", how=how.split(" ")[0], what=what, result="ok"))
+                ref = ref_g if what == "generator" else ref_s
+                if got.shape != ref.shape or not C.bit_equal(got, ref) or not (np.abs(got - mod) <= tol).all():
+                    ctx.violation("probe: %s of the %s" % (how, what),
+                                  "the %s obtained by %s does not give the field of the original / of the model with the original parameters "
+                                  "(mean_velocity %r, public mean_u of the object %r): max |diff| %.3g" % (
+                                      what, how, cfg["mean_u"], mean_u, float(np.max(np.abs(got - ref))) if got.shape == ref.shape else float("nan")),
+                                  dict(case, how=how, what=what, got=hexarr(got), original=hexarr(ref)), key="copies:%s:%s" % (how.split(" ")[0], what))
+                    if how.startswith("copy.deepcopy") and what == "generator":
+                        followups.append(cfg)
+            # a deep copy is independent: changing and evaluating it leaves the original alone
+            for how, what, o in objs:
+                if how == "copy.deepcopy":
+                    try:
+                        (o if what == "generator" else o.generator).mean_u = 17.0
+                        (o(pos) if what == "generator" else o(tuple(pos * 2.0), mesh_type="unstructured"))
+                    except Exception:
+                        pass
+            again_g = np.asarray(g(pos, add_nugget=False)); again_s = np.asarray(srf(tuple(pos), mesh_type="unstructured"))
+            if not (C.bit_equal(again_g, ref_g) and C.bit_equal(again_s, ref_s)):
+                ctx.violation("probe: original after changing / evaluating its deep copy",
+                              "re-assigning mean_u on a deep copy and evaluating it changed the field of the original",
+                              dict(case, got=hexarr(again_s), original=hexarr(ref_s)), key="copies:deepcopy:shared-state")
+    for cfg in followups[:1]:
+        cfg2 = dict(cfg, mode_no=64)
+        M = 100 if cfg["cls"] == "TPLStable" else 250
+        xs = np.ascontiguousarray(rng.uniform(-50, 50, size=(cfg["dim"], 24)) * cfg["len_scale"])
+        run_ensemble(ctx, cfg2, M, rng.choice(2 ** 31 - 1, size=M, replace=False), xs, history="deepcopy")
+
+
 # ----------------------------------------------------------------------------------------------- run
 
 def run(ctx):
@@ -1229,10 +1391,12 @@ def run(ctx):
         stages = ([("kernel correspondence", lambda: corr_kernel(ctx, rng, drv)),
                    ("wrapper correspondence", lambda: corr_wrapper(ctx, rng, drv)),
                    ("option cells", lambda: corr_options(ctx, rng, drv)),
-                   ("frames (angles / anis)", lambda: corr_frames(ctx, rng, drv))] if drv is not None else []) + [
+                   ("frames (angles / anis)", lambda: corr_frames(ctx, rng, drv)),
+                   ("copies / keyword order / interference", lambda: probe_copies(ctx, rng, drv))] if drv is not None else []) + [
                   ("divergence probe", lambda: probe_divergence(ctx, rng)),
                   ("pointwise probe", lambda: probe_pointwise(ctx, rng)),
                   ("history probe", lambda: probe_history(ctx, rng)),
+                  ("angle patterns", lambda: corr_angle_patterns(ctx, rng)),
                   ("entry points (unstructured / mesh)", lambda: probe_entry_points(ctx, rng)),
                   ("mean / trend options", lambda: probe_mean_trend(ctx, rng)),
                   ("size classes", lambda: probe_sizes(ctx, rng, drv)),
@@ -1263,7 +1427,8 @@ def replay(ctx, path):
         rng = C.Rng(rec.get("seed", ctx.seed), "C16-replay")
         M = int(case.get("M", 300))
         run_ensemble(ctx, cfg, M, rng.choice(2 ** 31 - 1, size=M, replace=False), unhex(case["x"]),
-                     history=str(case.get("history", "")).startswith("mean_u ="))
+                     history=(True if str(case.get("history", "")).startswith("mean_u =") else
+                              "deepcopy" if "deepcopy" in str(case.get("history", "")) else False))
     else:
         run(ctx)
     return ctx.finish()
